@@ -29,6 +29,9 @@ def scenarios(tier):
                 if tier == 'quick' and n == 2 and pat in ('slow', 'late'):
                     continue
                 out.append(Scenario('op', op=op, n=n, pat=pat, inflight_kill=False, watchers=1))
+        # grace periods the 0.1 s polling loop hits exactly (0, 0.1, 0.5) with workers that never die from the signal
+        for gg in (0, 0.1, 0.5):
+            out.append(Scenario('op', op=op, n=1, pat='stubborn', inflight_kill=False, watchers=1, g=gg))
     # a kill request in flight (non exclusive) when the stop arrives
     for op in ('stop', 'restart', 'quit'):
         for pat in ('stubborn', 'late', 'obedient'):
@@ -118,7 +121,7 @@ def _assert_stopped(world, res, wobj, name, when, listed=True, site='watcher._st
 
 
 def _run_op(scn, ch, res):
-    g = G
+    g = scn.p.get('g', G)
     specs = [WSpec('a', numprocesses=scn.n, graceful_timeout=g, behaviours=pattern(scn.pat))]
     if scn.watchers == 2:
         specs.append(WSpec('b', numprocesses=1, graceful_timeout=g, behaviours=pattern('obedient')))
